@@ -44,6 +44,10 @@ pub axiom fn axiom_btree_seq<K, V>(m: Map<K, V>)
         forall|i: int| 0 <= i < btree_seq(m).len() ==> m.contains_key(#[trigger] btree_seq(m)[i].0) && m[btree_seq(m)[i].0] == btree_seq(m)[i].1,
         forall|i: int, j: int| 0 <= i < j < btree_seq(m).len() ==> btree_seq(m)[i].0 != btree_seq(m)[j].0;
 
+// ... and every entry of the map is yielded (used by group `pspair` only)
+pub axiom fn axiom_btree_seq_covers<K, V>(m: Map<K, V>)
+    ensures forall|k: K| m.contains_key(k) ==> exists|i: int| 0 <= i < btree_seq(m).len() && (#[trigger] btree_seq(m)[i]).0 == k;
+
 // X7 call shims for `map.iter()` and `map.iter().enumerate()`.
 // vstd specifies BTreeMap::iter (entries of the map, keys not repeated) but not that two
 // iterations of the same map yield the SAME sequence; std documents ascending key order, so
